@@ -3002,3 +3002,295 @@ Proof.
   intros Hs Hc. rewrite rn_read_index_eq.
   rewrite readindex_requires_own_term_commit; auto. cbn. lia.
 Qed.
+
+(* ================================================================== *)
+(* 18. aggregates and definitional pins for Props/C08.v                *)
+(* ================================================================== *)
+
+Theorem raft_api_gx :
+  (forall r m r' c, step r m = Ok (r', c) -> gx r r') /\
+  (forall r r' b, tick r = Ok (r', b) -> gx r r') /\
+  (forall r cc r' ocs, raft_apply_conf_change r cc = Ok (r', ocs) -> gx r r') /\
+  (forall r r' cs, post_conf_change r = Ok (r', cs) -> gx r r') /\
+  (forall r i t r', on_persist_entries r i t = Ok r' -> gx r r') /\
+  (forall r i r', on_persist_snap r i = Ok r' -> gx r r') /\
+  (forall r app r', commit_apply r app = Ok r' -> gx r r') /\
+  (forall r hs r', load_state r hs = Ok r' -> gx r r') /\
+  (forall r r' c, request_snapshot r = Ok (r', c) -> gx r r') /\
+  (forall r r', ping r = Ok r' -> gx r r') /\
+  (forall r t c r', adjust_max_inflight_msgs r t c = Ok r' -> gx r r') /\
+  (forall r, gx r (maybe_free_inflight_buffers r)) /\
+  (forall r k, gx r (set_max_apply_unpersisted_log_limit r k)) /\
+  (forall r e r', enable_group_commit r e = Ok r' -> gx r r') /\
+  (forall r ids r', assign_commit_groups r ids = Ok r' -> gx r r').
+Proof.
+  destruct misc_api_fx as (M1 & M2 & M3 & M4 & M5).
+  repeat match goal with |- _ /\ _ => split end.
+  - apply step_gx.
+  - apply tick_gx.
+  - apply raft_apply_conf_change_gx.
+  - intros r r' cs H. apply post_conf_change_reads in H. apply H.
+  - intros. apply fx_gx. eapply on_persist_entries_fx; eassumption.
+  - intros. apply fx_gx. eapply on_persist_snap_fx; eassumption.
+  - intros. apply fx_gx. eapply commit_apply_fx; eassumption.
+  - intros. apply fx_gx. eapply load_state_fx; eassumption.
+  - intros. apply fx_gx. eapply request_snapshot_fx; eassumption.
+  - intros. apply fx_gx. eapply ping_fx; eassumption.
+  - intros. apply fx_gx. eapply M1; eassumption.
+  - intros. apply fx_gx. apply M2.
+  - intros. apply fx_gx. apply M3.
+  - intros. apply fx_gx. eapply M4; eassumption.
+  - intros. apply fx_gx. eapply M5; eassumption.
+Qed.
+
+Theorem rawnode_api_gx :
+  (forall n m n' c, rn_step n m = Ok (n', c) -> gxn n n') /\
+  (forall n n' b, rn_tick n = Ok (n', b) -> gxn n n') /\
+  (forall n n' c, rn_campaign n = Ok (n', c) -> gxn n n') /\
+  (forall n ctx data n' c, rn_propose n ctx data = Ok (n', c) -> gxn n n') /\
+  (forall n ctx data ty ci n' c, rn_propose_conf_change n ctx data ty ci = Ok (n', c) -> gxn n n') /\
+  (forall n cc n' ocs, rn_apply_conf_change n cc = Ok (n', ocs) -> gxn n n') /\
+  (forall n n', rn_ping n = Ok n' -> gxn n n') /\
+  (forall n n' rd, rn_ready n = Ok (n', rd) -> gxn n n') /\
+  (forall n k n', rn_on_persist_ready n k = Ok n' -> gxn n n') /\
+  (forall n rd n' lr, rn_advance_append n rd = Ok (n', lr) -> gxn n n') /\
+  (forall n rd n', rn_advance_append_async n rd = Ok n' -> gxn n n') /\
+  (forall n app n', rn_advance_apply_to n app = Ok n' -> gxn n n') /\
+  (forall n n', rn_advance_apply n = Ok n' -> gxn n n') /\
+  (forall n rd n' lr, rn_advance n rd = Ok (n', lr) -> gxn n n') /\
+  (forall n id n', rn_report_unreachable n id = Ok n' -> gxn n n') /\
+  (forall n id f n', rn_report_snapshot n id f = Ok n' -> gxn n n') /\
+  (forall n n' c, rn_request_snapshot n = Ok (n', c) -> gxn n n') /\
+  (forall n t n', rn_transfer_leader n t = Ok n' -> gxn n n') /\
+  (forall n ctx n', rn_read_index n ctx = Ok n' -> gxn n n').
+Proof.
+  repeat match goal with |- _ /\ _ => split end.
+  - apply rn_step_gx.
+  - apply rn_tick_gx.
+  - apply rn_campaign_gx.
+  - apply rn_propose_gx.
+  - apply rn_propose_conf_change_gx.
+  - apply rn_apply_conf_change_gx.
+  - apply rn_ping_gx.
+  - apply rn_ready_gx.
+  - apply rn_on_persist_ready_gx.
+  - apply rn_advance_append_gx.
+  - apply rn_advance_append_async_gx.
+  - apply rn_advance_apply_to_gx.
+  - apply rn_advance_apply_gx.
+  - apply rn_advance_gx.
+  - apply rn_report_unreachable_gx.
+  - apply rn_report_snapshot_gx.
+  - apply rn_request_snapshot_gx.
+  - apply rn_transfer_leader_gx.
+  - apply rn_read_index_gx.
+Qed.
+
+(* the meaning of gx, spelled out *)
+Lemma gx_def_pin r r' :
+  gx r r' <->
+  (committed (r_log r) <= committed (r_log r') /\ r_id r' = r_id r /\
+   ro_option (r_read_only r') = ro_option (r_read_only r) /\
+   (RoInv (r_read_only r) -> RoInv (r_read_only r'))).
+Proof. reflexivity. Qed.
+
+Lemma gxn_def_pin n n' : gxn n n' <-> gx (rn_raft n) (rn_raft n').
+Proof. reflexivity. Qed.
+
+Lemma fx_def_pin r r' :
+  fx r r' <->
+  (committed (r_log r) <= committed (r_log r') /\
+   r_read_states r' = r_read_states r /\
+   (r_read_only r' = r_read_only r \/ r_read_only r' = ro_new (ro_option (r_read_only r))) /\
+   r_id r' = r_id r /\
+   filter (fun x => m_type x =? MsgReadIndexResp) (r_msgs r')
+     = filter (fun x => m_type x =? MsgReadIndexResp) (r_msgs r)).
+Proof. reflexivity. Qed.
+
+Lemma RoInv_def_pin ro :
+  RoInv ro <->
+  (NoDup (ro_queue ro) /\ NoDup (map fst (ro_pending ro)) /\
+   (forall c, In c (ro_queue ro) <-> In c (map fst (ro_pending ro)))).
+Proof. reflexivity. Qed.
+
+Lemma rir_def_pin l : rir l = filter (fun x => m_type x =? MsgReadIndexResp) l.
+Proof. reflexivity. Qed.
+
+Lemma hb_list_def_pin r ctx ids :
+  hb_list r ctx ids =
+  flat_map (fun id => if id =? r_id r then []
+                      else match get_pr r id with
+                           | Some pr => [hb_msg r ctx id pr]
+                           | None => []
+                           end) ids.
+Proof. reflexivity. Qed.
+
+Lemma hb_msg_def_pin r ctx to pr :
+  hb_msg r ctx to pr =
+  mkMsg MsgHeartbeat to (r_id r) (r_term r) 0 0 [] (N.min (matched pr) (committed (r_log r))) 0
+        snap_default 0 false 0 (match ctx with Some c => c | None => [] end) 0 0%Z [].
+Proof. destruct ctx; reflexivity. Qed.
+
+Lemma rir_msg_def_pin r req idx :
+  rir_msg r req idx =
+  mkMsg MsgReadIndexResp (m_from req) (r_id r) (r_term r) 0 idx (m_entries req) 0 0
+        snap_default 0 false 0 [] 0 0%Z [].
+Proof. reflexivity. Qed.
+
+Lemma hb_resp_def_pin r m cmt :
+  hb_resp r m cmt =
+  mkMsg MsgHeartbeatResponse (m_from m) (r_id r) (r_term r) 0 0 [] cmt 0
+        snap_default 0 false 0 (m_context m) 0 0%Z [].
+Proof. reflexivity. Qed.
+
+Lemma local_req_def_pin self req :
+  local_req self req = (m_from req =? INVALID_ID) || (m_from req =? self).
+Proof. reflexivity. Qed.
+
+Lemma rr_states_def_pin self rss :
+  rr_states self rss =
+  flat_map (fun rs => if local_req self (ris_req rs)
+                      then match m_entries (ris_req rs) with
+                           | e :: _ => [mkRS (ris_index rs) (e_data e)]
+                           | [] => []
+                           end
+                      else []) rss.
+Proof. reflexivity. Qed.
+
+Lemma rr_msgs_def_pin r rss :
+  rr_msgs r rss =
+  flat_map (fun rs => if local_req (r_id r) (ris_req rs) then []
+                      else [rir_msg r (ris_req rs) (ris_index rs)]) rss.
+Proof. reflexivity. Qed.
+
+Lemma hbr_ack_def_pin r m :
+  hbr_ack r m = fst (ro_recv_ack (r_read_only r) (m_from m) (m_context m)).
+Proof. reflexivity. Qed.
+
+Lemma add_ack_def_pin id rs :
+  add_ack id rs = mkRIS (ris_req rs) (ris_index rs) (IdSet.insert id (ris_acks rs)).
+Proof. reflexivity. Qed.
+
+Lemma singleton_conf_def_pin r :
+  singleton_conf r = match incoming (conf_of r), outgoing (conf_of r) with
+                     | [_], [] => true
+                     | _, _ => false
+                     end.
+Proof. reflexivity. Qed.
+
+Lemma ro_after_request_def_pin r m ctx :
+  ro_after_request r m ctx =
+  match ro_find (ro_pending (r_read_only r)) ctx with
+  | Some _ => r_read_only r
+  | None => mkRO (ro_option (r_read_only r))
+                 (ro_pending (r_read_only r) ++ [(ctx, mkRIS m (committed (r_log r)) [r_id r])])
+                 (ro_queue (r_read_only r) ++ [ctx])
+  end.
+Proof. reflexivity. Qed.
+
+Lemma read_index_msg_def_pin rctx :
+  read_index_msg rctx =
+  msg_default <| m_type := MsgReadIndex |> <| m_entries := [mkEntry EntryNormal 0 0 rctx []] |>.
+Proof. reflexivity. Qed.
+
+Lemma steps_down_def_pin r m :
+  steps_down r m =
+  negb (((m_type m =? MsgRequestVote) || (m_type m =? MsgRequestPreVote))
+        && negb (list_eqb (m_context m) CAMPAIGN_TRANSFER)
+        && (r_check_quorum r && negb (r_leader_id r =? INVALID_ID)
+            && (r_election_elapsed r <? r_election_timeout r)))
+  && negb ((m_type m =? MsgRequestPreVote)
+           || ((m_type m =? MsgRequestPreVoteResponse) && negb (m_reject m))).
+Proof. reflexivity. Qed.
+
+Lemma read_origin_def_pin r m r' new newm :
+  read_origin r m r' new newm <->
+  ((new = [] /\ newm = []) \/
+   (m_type m = MsgReadIndexResp /\ r_state r = Follower /\ newm = [] /\
+    exists e, m_entries m = [e] /\ new = [mkRS (m_index m) (e_data e)]) \/
+   (m_type m = MsgReadIndex /\ r_state r = Leader /\ commit_to_current_term r = Ok true /\
+    (singleton_conf r = true \/ ro_option (r_read_only r) <> 0) /\
+    new = rr_states (r_id r) [mkRIS m (committed (r_log r)) []] /\
+    newm = rr_msgs r [mkRIS m (committed (r_log r)) []]) \/
+   (m_type m = MsgHeartbeatResponse /\ r_state r = Leader /\
+    ro_option (r_read_only r) = 0 /\ m_context m <> [] /\ get_pr r (m_from m) <> None /\
+    exists rs served,
+      ro_find (ro_pending (r_read_only r)) (m_context m) = Some rs /\
+      prs_has_quorum (r_prs r) (IdSet.insert (m_from m) (ris_acks rs)) = true /\
+      ro_advance (hbr_ack r m) (m_context m) = Ok (r_read_only r', served) /\
+      new = rr_states (r_id r) served /\ newm = rr_msgs r served)).
+Proof. reflexivity. Qed.
+
+(* the read-only spec, packaged: add_request *)
+Theorem read_only_spec_add ro idx req self ro' :
+  ro_add_request ro idx req self = Ok ro' ->
+  (exists e rest, m_entries req = e :: rest /\
+    ((exists st, ro_find (ro_pending ro) (e_data e) = Some st /\ ro' = ro) \/
+     (ro_find (ro_pending ro) (e_data e) = None /\
+      ro' = mkRO (ro_option ro)
+                 (ro_pending ro ++ [(e_data e, mkRIS req idx [self])])
+                 (ro_queue ro ++ [e_data e])))) /\
+  (RoInv ro -> RoInv ro').
+Proof.
+  intros H. split; [apply ro_add_request_spec; exact H|]. apply ro_add_request_RoInv with (1 := H).
+Qed.
+
+Theorem read_only_spec_ack ro id ctx :
+  snd (ro_recv_ack ro id ctx) =
+    option_map (fun rs => IdSet.insert id (ris_acks rs)) (ro_find (ro_pending ro) ctx) /\
+  ro_option (fst (ro_recv_ack ro id ctx)) = ro_option ro /\
+  ro_queue (fst (ro_recv_ack ro id ctx)) = ro_queue ro /\
+  map fst (ro_pending (fst (ro_recv_ack ro id ctx))) = map fst (ro_pending ro) /\
+  (forall c, ro_find (ro_pending (fst (ro_recv_ack ro id ctx))) c =
+             if list_eqb ctx c then option_map (add_ack id) (ro_find (ro_pending ro) ctx)
+             else ro_find (ro_pending ro) c) /\
+  (RoInv ro -> RoInv (fst (ro_recv_ack ro id ctx))).
+Proof.
+  destruct (ro_recv_ack_spec ro id ctx) as (A & B & C0 & D & E).
+  repeat (split; [assumption|]). apply ro_recv_ack_RoInv.
+Qed.
+
+Theorem read_only_spec_advance ro ctx : RoInv ro ->
+  (exists x, ro_advance ro ctx = Ok x) /\
+  (~ In ctx (ro_queue ro) -> ro_advance ro ctx = Ok (ro, [])) /\
+  (forall pre post, ro_queue ro = pre ++ ctx :: post ->
+     exists ro' rss, ro_advance ro ctx = Ok (ro', rss) /\
+       ro_option ro' = ro_option ro /\ ro_queue ro' = post /\
+       map Some rss = map (ro_find (ro_pending ro)) (pre ++ [ctx]) /\
+       (forall c, In c (pre ++ [ctx]) -> ro_find (ro_pending ro') c = None) /\
+       (forall c, ~ In c (pre ++ [ctx]) -> ro_find (ro_pending ro') c = ro_find (ro_pending ro) c) /\
+       RoInv ro').
+Proof.
+  intros H. split; [apply ro_advance_no_panic; exact H|]. apply ro_advance_spec. exact H.
+Qed.
+
+(* ------------------------------------------------------------------ *)
+(* concrete states for the non-vacuity examples of Props/C08.v *)
+Module C08Samples.
+Import C09Samples.
+
+(* a read request for context [ctx] coming from [from] (0 = issued locally) *)
+Definition rd (from : N) (ctx : list N) : msg :=
+  msg_default <| m_type := MsgReadIndex |> <| m_from := from |>
+              <| m_entries := [mkEntry EntryNormal 0 0 ctx []] |>.
+(* a term-2 heartbeat response from [from] echoing [ctx] *)
+Definition hbr (from : N) (ctx : list N) : msg :=
+  msg_default <| m_type := MsgHeartbeatResponse |> <| m_from := from |> <| m_term := 2 |>
+              <| m_context := ctx |>.
+(* the leader of C09 (term 2, voters {1,2,3}, commit 3 = an entry of term 2, Safe) after a
+   local read [7] and a read [8] forwarded by follower 3 *)
+Definition s1 : raft := match step s_leader (rd 0 [7]) with Ok (r, _) => r | Panic _ => s_leader end.
+Definition s2 : raft := match step s1 (rd 3 [8]) with Ok (r, _) => r | Panic _ => s_leader end.
+(* a term-2 leader whose last committed entry is of term 1 *)
+Definition s_leader_old : raft := s_raft Leader (s_log (e_norm 1 3) 3 3) c3 0 true 1.
+(* the same leader with the LeaseBased option *)
+Definition s_leader_lease : raft := s_leader <| r_read_only := ro_new 1 |>.
+(* the answer of leader 2 to a read [7] forwarded by this follower *)
+Definition resp7 : msg :=
+  msg_default <| m_type := MsgReadIndexResp |> <| m_from := 2 |> <| m_term := 2 |> <| m_index := 3 |>
+              <| m_entries := [mkEntry EntryNormal 0 0 [7] []] |>.
+Definition hb (from term : N) (ctx : list N) : msg :=
+  msg_default <| m_type := MsgHeartbeat |> <| m_from := from |> <| m_term := term |>
+              <| m_context := ctx |> <| m_commit := 3 |>.
+
+End C08Samples.
